@@ -158,6 +158,7 @@ def run(ck, fb, fbd):
     pending_deletions(ck, fb)
     topology_detection(ck, fb)
     from . import readers
+    readers.edge_dup_rule(ck, fb)
     readers.optional_chunk_rule(ck, fb)
 
 
